@@ -235,13 +235,22 @@ def run_agree(sc):
     attempt("keyword", lambda: (Iqxy(info.id, QX, QY, **pars) if is2d else Iq(info.id, Q1, **pars)))
     attempt("bumps", lambda: bumps_model.Experiment(data(), bumps_model.Model(model, **pars), cutoff=CUTOFF).theory())
 
-    def sasview():
+    def sasview(arrays=None):
+        """*arrays* maps a dispersed parameter to the (values, weights) handed over as an array distribution."""
+        from sasmodels import weights as wmod
         cls = sv_class(info.id)
         ctl = cls.multiplicity_info.control if cls.is_multiplicity_model else None
         inst = cls(int(pars[ctl])) if ctl else cls()
         inst.cutoff = CUTOFF
         for k, v in pars.items():
             if k == ctl:
+                continue
+            base = next((k[:-len(sfx)] for sfx in ("_pd_type", "_pd_nsigma", "_pd_n", "_pd") if k.endswith(sfx)), None)
+            if arrays is not None and base in arrays:
+                if k.endswith("_pd_type"):
+                    disp = wmod.ArrayDispersion()
+                    disp.set_weights(*arrays[base])
+                    inst.set_dispersion(base, disp)
                 continue
             if k.endswith("_pd_type"):
                 inst.dispersion[k[:-8]]["type"] = v
@@ -261,7 +270,50 @@ def run_agree(sc):
                 raise KeyError("sasview wrapper has no parameter " + k)
         return inst.evalDistribution([QX, QY] if is2d else Q1)
     attempt("sasview", sasview)
+    dispersed = sorted(k[:-8] for k in pars if k.endswith("_pd_type"))
+    if dispersed:
+        # the same request with every distribution handed to the SasView-style object as an array
+        # distribution carrying the points and weights of the parametric one
+        from sasmodels import weights as wmod
+        same = {nm: wmod.get_weights(pars[nm + "_pd_type"], pars[nm + "_pd_n"], pars[nm + "_pd"], pars[nm + "_pd_nsigma"],
+                                     pars[nm], P[nm].limits, P[nm].relative_pd) for nm in dispersed}
+        attempt("sasview-array", lambda: sasview(same))
     emit({"tid": sc["tid"], "ev": "Agree", "model": sc["model"], "dim": sc["dim"], "results": results, "pars": pars})
+    if dispersed:
+        # free-form array distributions (irregular points, unnormalised weights, a zero weight): the wrapper
+        # against the same mesh handed to the kernel directly
+        from sasmodels.details import make_kernel_args
+        free = {}
+        for nm in dispersed:
+            n = rng.choice([1, 3, 7])
+            # (absolute distributions - orientation - are jitter offsets about zero, not about the view angle)
+            c = pars[nm] if P[nm].relative_pd else 0.0
+            span = abs(c) * 0.3 if P[nm].relative_pd else 20.0
+            lo, hi = P[nm].limits
+            vals = sorted(min(max(c + span * rng.uniform(-1, 1), lo), hi) for _ in range(n))
+            wts = [rng.choice([0.0, 0.5, 1.0, 2.5, 4.0]) for _ in range(n)]
+            if not any(wts):
+                wts[0] = 1.5
+            free[nm] = (np.array(vals), np.array(wts))
+        results = []
+
+        def mesh():
+            kern = model.make_kernel(qv)
+            from sasmodels.direct_model import get_mesh
+            rest = {k: v for k, v in pars.items()
+                    if not any(k == nm + sfx for nm in free for sfx in ("_pd", "_pd_n", "_pd_nsigma", "_pd_type"))}
+            pairs = get_mesh(info, rest, dim="2d" if is2d else "1d")
+            for j, p in enumerate(P.call_parameters):
+                if p.name in free:
+                    pairs[j] = (pairs[j][0], free[p.name][0], free[p.name][1])
+            details, values, magnetic = make_kernel_args(kern, pairs)
+            return kern(details, values, cutoff=CUTOFF, magnetic=magnetic)
+        attempt("mesh", mesh)
+        attempt("sasview-array", lambda: sasview(free))
+        apars = dict(pars)
+        for nm in free:
+            apars[nm + "_array"] = [fvec(free[nm][0]), fvec(free[nm][1])]
+        emit({"tid": sc["tid"], "ev": "Agree", "model": sc["model"], "dim": sc["dim"], "results": results, "pars": apars})
 
 
 def main():
